@@ -27,7 +27,10 @@ EXPLANATION = (
     "row-group list uses an index whose provenance is in the array's own index space; (6) "
     "carquet_batch_reader_create, executed abstractly for a 3-column file, keeps exactly the caller's "
     "projection list in the caller's order for every width 1..4 (permutations and duplicates included), by "
-    "index and by name, and 0..N-1 without a list. Decides these "
+    "index and by name, and 0..N-1 without a list; (7) carquet_column_read_batch, executed with the page "
+    "reader hooked (pages of 3, 4, 2 values or a failing second page; requests 1..12; level arrays wanted or "
+    "not; every fixed-width type), hands each page the three output positions advanced by what was already "
+    "delivered and returns the total. Decides these "
     "clauses, not that the dense-values offset is right for nullable pages.")
 
 PR = "src/reader/page_reader.c"
@@ -196,6 +199,8 @@ def run(ctx):
     _page_cursor(ctx, rn)
     ctx.clause("C02.6 the batch reader's projection is the caller's list, in the caller's order, for every width (by index or by name)")
     _projection(ctx)
+    ctx.clause("C02.7 a read that spans pages appends every page's values, definition and repetition levels where the previous page stopped")
+    _stitching(ctx)
     # set-form update in the batch reader's zero-copy branch
     bn = P.fn("carquet_batch_reader_next", BR)
     bnv = P.inlined(bn, 2)       # the zero-copy arm may live in a static helper: its guard is then the caller's
@@ -269,6 +274,71 @@ def _names_assigned_from(fn, callee):
         elif is_assign(n) and any(c.k == "CallExpr" and c.callee == callee for c in n.c[1].walk()):
             out.append(src(n.c[0]))
     return out
+
+
+def _stitching(ctx):
+    """carquet_column_read_batch executed abstractly with the page reader hooked: pages deliver 3, 4 and 2 values
+    (or fail), the request is 0..12 values, each of the two level arrays is wanted or not, for every physical type.
+    Every call of the page reader must receive the three output positions advanced by what the earlier pages
+    delivered, ask for what is still missing, and the call returns the total."""
+    from ..rules import sem
+    from ..rules.skeleton import Ptr, U
+    P = ctx.P
+    fn = P.fn("carquet_column_read_batch", "src/reader/column_reader.c")
+    key = "stitching|src/reader/column_reader.c:carquet_column_read_batch"
+    what = ("a read spanning pages hands the page reader values + done*size, def + done and rep + done (or NULL) and max - done, "
+            "and returns the total delivered (abstract execution: page sizes 3,4,2 x requests 0..12 x wanted arrays x types)")
+    ro = sem.field_offsets(P, "carquet_column_reader")
+    phys = P.enum("carquet_physical_type")
+    sizes = {"CARQUET_PHYSICAL_BOOLEAN": 1, "CARQUET_PHYSICAL_INT32": 4, "CARQUET_PHYSICAL_INT64": 8, "CARQUET_PHYSICAL_INT96": 12,
+             "CARQUET_PHYSICAL_FLOAT": 4, "CARQUET_PHYSICAL_DOUBLE": 8, "CARQUET_PHYSICAL_FIXED_LEN_BYTE_ARRAY": 5}
+    bad = None
+    n = 0
+    try:
+        for tname, vs in sorted(sizes.items()):
+            for maxv in (1, 3, 4, 7, 8, 9, 12):
+                for wd, wr in ((1, 1), (1, 0), (0, 1), (0, 0)):
+                    for failat in (None, 1):
+                        n += 1
+                        pages = [3, 4, 2]
+                        calls = []
+                        st = {"i": 0}
+
+                        def next_page(ev, a, it, st=st, calls=calls):
+                            i = st["i"]
+                            st["i"] += 1
+                            calls.append(tuple((x.base, x.off) if isinstance(x, Ptr) else x for x in a[1:5]))
+                            if failat is not None and i == failat:
+                                return 9
+                            k = min(pages[i], a[2]) if i < len(pages) and isinstance(a[2], int) else 0
+                            sem.set_out(it, a[5], k)
+                            rem = it.heap.get(("rd", ro["values_remaining"]))
+                            it.heap[("rd", ro["values_remaining"])] = rem - k if isinstance(rem, int) else U
+                            it.heap[("rd", ro["page_loaded"])] = 1
+                            return 0
+                        heap0 = {("rd", ro["values_remaining"]): 9, ("rd", ro["type"]): phys[tname], ("rd", ro["type_length"]): 5,
+                                 ("rd", ro["page_loaded"]): 0}
+                        args = [Ptr("rd", 0, 1), Ptr("vals", 0, 1), maxv, Ptr("defs", 0, 2) if wd else 0, Ptr("reps", 0, 2) if wr else 0]
+                        ret, ev, heap = sem.run(P, fn, args, heap0=heap0, hooks={"carquet_read_next_page": next_page}, single=True, max_forks=16,
+                                                budget=100000, on_start=lambda st=st, calls=calls: (st.__setitem__("i", 0), calls.clear()))
+                        done = 0
+                        want_calls = []
+                        for i, pg in enumerate(pages):
+                            if done >= maxv or done >= 9:
+                                break
+                            want_calls.append((("vals", done * vs), maxv - done, ("defs", done * 2) if wd else 0, ("reps", done * 2) if wr else 0))
+                            if failat is not None and i == failat:
+                                break
+                            done += min(pg, maxv - done)
+                        want_ret = done if (done > 0 or failat != 0) else -1
+                        sc = "%s, request %d, def %d rep %d%s" % (tname.replace("CARQUET_PHYSICAL_", ""), maxv, wd, wr, ", second page fails" if failat is not None else "")
+                        if calls != want_calls or ret != want_ret:
+                            bad = bad or "%s: page reader called with %s, returns %s; expected %s, %s" % (sc, calls, ret, want_calls, want_ret)
+    except (sem.Inconclusive, KeyError) as ex:
+        ctx.inconclusive("R9.paired", key, P.where(fn.body), what, "%s: %s" % (type(ex).__name__, ex))
+        return
+    ctx.count("stitching_scenarios", n)
+    ctx.ob("R9.paired", key, P.where(fn.body), what, bad is None, bad or "")
 
 
 def _projection(ctx):
